@@ -803,3 +803,51 @@ Proof.
   rewrite map_map. erewrite map_ext; [rewrite map_id; apply Permutation_refl|].
   intros x. apply Nat2Z.id.
 Qed.
+
+(* ------------------------------------------------------------------ thinning to the query genes *)
+Lemma index_of_spec keep : NoDup keep -> forall i j, index_of i keep = Some j <-> nth_error keep j = Some i.
+Proof.
+  induction keep as [|y t IH]; intros ND i j; cbn.
+  - split; [discriminate | destruct j; discriminate].
+  - inversion ND as [|? ? Hy ND']; subst. destruct (Nat.eqb i y) eqn:E.
+    + apply Nat.eqb_eq in E. subst y. split.
+      * intros H. inversion H. reflexivity.
+      * destruct j as [|j]; [reflexivity|]. cbn. intros H. apply nth_error_In in H. contradiction.
+    + apply Nat.eqb_neq in E. destruct j as [|j]; cbn.
+      * split; [destruct (index_of i t); discriminate | intros H; inversion H; congruence].
+      * rewrite <- (IH ND' i j). destruct (index_of i t) as [k|]; cbn; split; intros H; inversion H; reflexivity.
+Qed.
+
+Lemma remap_spec keep l j : NoDup keep ->
+  In j (remap keep l) <-> exists i, nth_error keep j = Some i /\ In i l.
+Proof.
+  intros ND. unfold remap. rewrite in_flat_map. split.
+  - intros (i & Hi & H). destruct (index_of i keep) as [k|] eqn:E; [|destruct H].
+    destruct H as [<-|[]]. exists i. split; [apply (index_of_spec keep ND); exact E | exact Hi].
+  - intros (i & Hn & Hi). exists i. split; [exact Hi|]. apply (index_of_spec keep ND) in Hn. rewrite Hn. left. reflexivity.
+Qed.
+
+Lemma keep_idx_spec rm query i :
+  In i (keep_idx rm query) <-> i < length (rm_genes rm) /\ In (nth i (rm_genes rm) 0%Z) query.
+Proof. unfold keep_idx. rewrite filter_In, in_seq, zmem_in. split; intros [H1 H2]; split; auto; lia. Qed.
+Lemma keep_idx_nodup rm query : NoDup (keep_idx rm query).
+Proof. unfold keep_idx. apply NoDup_filter, seq_NoDup. Qed.
+
+(* the thinned table: gene j of the thinned array is reference gene keep[j] (a reference gene that
+   occurs in the query, reference order kept); it is listed for a pair and a direction iff
+   reference gene keep[j] is listed there in the file; pairs and their positions are untouched *)
+Theorem thinning_sound rm query :
+  let keep := keep_idx rm query in
+  rm_genes (thin_genes rm query) = map (fun i => nth i (rm_genes rm) 0%Z) keep /\
+  (forall i, In i keep <-> i < length (rm_genes rm) /\ In (nth i (rm_genes rm) 0%Z) query) /\
+  length (rm_pairs (thin_genes rm query)) = length (rm_pairs rm) /\
+  forall k e, nth_error (rm_pairs rm) k = Some e ->
+    exists e', nth_error (rm_pairs (thin_genes rm query)) k = Some e' /\ fst e' = fst e /\
+      (forall j, In j (fst (snd e')) <-> exists i, nth_error keep j = Some i /\ In i (fst (snd e))) /\
+      (forall j, In j (snd (snd e')) <-> exists i, nth_error keep j = Some i /\ In i (snd (snd e))).
+Proof.
+  cbv zeta. split; [reflexivity|]. split; [apply keep_idx_spec|]. split; [cbn; apply map_length|].
+  intros k e H. unfold thin_genes. cbn [rm_pairs].
+  eexists. split; [apply map_nth_error; exact H|]. cbn [fst snd]. split; [reflexivity|].
+  split; intros j; apply remap_spec, keep_idx_nodup.
+Qed.
